@@ -272,7 +272,7 @@ def rt_replay(cex, tree, path):
                        stdout=subprocess.PIPE, stderr=subprocess.STDOUT, text=True, timeout=600)
     os.unlink(bpath)
     try:
-        act = json.loads(p.stdout[p.stdout.index("["):])[0]
+        act = json.loads(p.stdout[p.stdout.index("@@JSON@@") + 8:])[0]
         if rep["harness"] in rt_fallback.NATIVE_ORACLE:
             fails = list(act.get("clause_failures", [])) + ([f"raises:{act['exception']}"] if act.get("exception") else [])
             return {"tree": tree, "reproduced": bool(fails), "failed_clauses": fails,
@@ -330,7 +330,25 @@ def check_property(prop, tier="quick", tree="/repo", record=False, jobs=None, le
     resA = [r for r in resA if not r.get("fallback_of_unbounded")]
     resB = resB + moved
     res = resA + resB
-    covered = {(r["qualname"], r["variant"]) for r in resB if r.get("limit_covered_by_fallback")}
+    # phase 3: unbounded task out of the engine's reach (and no run-time fallback): the bounded tasks of the same contract
+    # stand in if every one of them explored the real code completely (no limit, no error) - labelled bounded
+    standin = {}
+    fb_done = {(r["qualname"], r["variant"]) for r in resB if r.get("limit_covered_by_fallback")}
+    need = [(r["qualname"], r["variant"], r["limit"]) for r in resA if r["limit"] and not r["error"]
+            and (r["qualname"], r["variant"]) not in fb_done]
+    extra_jobs = [(q, v, cfg, timeout_ms, tree, False, frozenset()) for (q, v, _l) in need
+                  if not getattr(REG.contracts[q], "bounded", True) for cfg in bounded]
+    extra_res = run_tasks(_run_task, extra_jobs, njobs, hard) if extra_jobs else []
+    for (q, v, lim) in need:
+        own = [r for r in (resB + extra_res) if r["qualname"] == q and r["variant"] == v]
+        if own and all(not r["error"] and not r["limit"] for r in own):
+            standin[(q, v)] = lim
+            for r in extra_res:
+                if r["qualname"] == q and r["variant"] == v:
+                    r["standin_for_unbounded"] = True
+                    resB.append(r)
+    res = resA + resB
+    covered = {(r["qualname"], r["variant"]) for r in resB if r.get("limit_covered_by_fallback")} | set(standin)
     limits = [r for r in resA if r["limit"] and (r["qualname"], r["variant"]) not in covered] + \
              [r for r in resB if r["limit"] and (not unb(r["qualname"]) or r.get("fallback_of_unbounded"))
               and not r.get("limit_covered_by_fallback")]
@@ -450,7 +468,7 @@ def check_property(prop, tier="quick", tree="/repo", record=False, jobs=None, le
         p_ = subprocess.run([sys.executable, os.path.join(VERIF, "replay", "dyn_replay.py"), "--batch", bpath], env=env,
                             stdout=subprocess.PIPE, stderr=subprocess.STDOUT, text=True, timeout=1800)
         try:
-            outs = json.loads(p_.stdout[p_.stdout.index("["):])
+            outs = json.loads(p_.stdout[p_.stdout.index("@@JSON@@") + 8:])
         except Exception:
             outs = []
             D.failures.append("engine cross-check batch crashed: " + p_.stdout[-300:])
@@ -464,11 +482,15 @@ def check_property(prop, tier="quick", tree="/repo", record=False, jobs=None, le
                                       f"{x.get('harness')}: {o_.get('mismatches', [])[:3]}")
     D.xcheck = xres
     D.rt = D_rt
+    limited_q = {r["qualname"] for r in res if r.get("limit")}
     # ---- vanished obligations
     if exp and not record and not D.violations:
         for name, st in exp.items():
             if ":raises:" in name or name.startswith("pre@"):
                 continue        # exceptional-exit / call-site obligations exist only while such a path is explored
+            if any(name.startswith(q + ":") or f"@{q}:" in name for q in limited_q):
+                continue        # function decided by a bounded stand-in / run-time fallback on this tree (engine limit):
+                                # its proof obligations are not (all) generated
             if name not in agg and name not in bagg and not limits:
                 D.failures.append(f"obligation vanished: {name}")
     # ---- vacuity: every bounded task must have at least one feasible normal exit
@@ -501,6 +523,17 @@ def check_property(prop, tier="quick", tree="/repo", record=False, jobs=None, le
         print(f"VIOLATION property={prop} replay={path}{suffix}")
         print(f"  failed obligation: {name}")
         code = 1
+    for (q, v), lim in sorted(standin.items()):
+        print(f"BOUNDED-STAND-IN property={prop} {q}[{v}]: unbounded proof out of the engine's reach on this tree ({lim}); "
+              f"decided on the bounded configurations only")
+    D.standin = {f"{q}[{v}]": lim for (q, v), lim in standin.items()}
+    seen_rt = set()
+    for r in resB:
+        if r.get("limit_covered_by_fallback") and (r["qualname"], r["variant"]) not in seen_rt:
+            seen_rt.add((r["qualname"], r["variant"]))
+            print(f"RUN-TIME-FALLBACK property={prop} {r['qualname']}[{r['variant']}]: engine limit on this tree ({r['limit']}); "
+                  f"the contract was evaluated on the real code over {r['rt_fallback'].get('valid')} random inputs per bounded "
+                  f"configuration (bounded)")
     for f_ in D.failures:
         print(f"CHECKER-FAILURE property={prop}: {f_}")
     if code == 0 and D.failures:
@@ -609,6 +642,7 @@ def build_evidence(prop, tier, level, agg, bagg, resA, resB, D, bounded, wall, n
             "known_findings_printed": [kf["what"] for kf, _ in D.known],
             "engine_crosscheck": getattr(D, "xcheck", {}),
             "run_time_contract_fallback": getattr(D, "rt", {}),
+            "unbounded_out_of_reach_decided_by_bounded_standin": getattr(D, "standin", {}),
             "undecided": [n for n, _ in D.undecided],
             "tree": tree,
             "design_ref": design_ref,
